@@ -397,7 +397,11 @@ def dimIsZero : LenVal K → Bool
 
 /-- the `svg` branch (svgelements.py:9236-9281) -/
 def svgEnter (cfg : Cfg K) (nested : Bool) (vals : Vals K) (w h : Dim K) : SvgOutcome K :=
-  let vbox : Option (VBox K) := (Dict.get vals.d "viewBox").map (parseViewbox cfg)
+  -- a viewBox without its four numbers is ignored (`SVG.property_by_values`)
+  let vbox : Option (VBox K) :=
+    match (Dict.get vals.d "viewBox").map (parseViewbox cfg) with
+    | some vb => if vb.x.isSome && vb.y.isSome && vb.w.isSome && vb.h.isSome then some vb else none
+    | none => none
   -- `if width is None: width = s.viewbox.width if s.viewbox is not None else 1000`
   let w : Dim K := match w with
     | some r => some r
@@ -465,17 +469,25 @@ def childCtx (c : Ctx) : Ctx :=
   | .none => .obj true
   | .obj a => .obj a
 
+/-- a transform that `Matrix(text)` rejects is deleted from the element's attributes
+    (svgelements.py: the `try: Matrix(...) except (ValueError, TypeError)` guard) -/
+def validAttrs (cfg : Cfg K) (a : Dict) : Dict :=
+  match Dict.get a "transform" with
+  | some t => if (cfg.tfErr [TfPiece.text t]).isSome then Dict.erase a "transform" else a
+  | none => a
+
+/-- the inherited transform with the element's own appended -/
+def ownTf (inherited : Option (List (TfPiece K))) (a : Dict) : Option (List (TfPiece K)) :=
+  match Dict.get a "transform" with
+  | some t => some ((inherited.getD []) ++ [TfPiece.text t])
+  | none => inherited
+
 /-- the element's compiled `values`: the inherited dictionary without the non-propagating keys,
     updated with the element's own compiled attributes; its transform text appended to the
     inherited transform (svgelements.py:9138-9229) -/
-def compileVals (styles : Dict) (f : Frame K) (tag : String) (attrs : List (String × String)) : Vals K :=
-  let d0 := inheritDict f.vals.d
-  let a := compileAttrs styles f.vals.d tag attrs
-  let tf : Option (List (TfPiece K)) :=
-    match Dict.get a "transform" with
-    | some t => some ((f.vals.tf.getD []) ++ [TfPiece.text t])
-    | none => f.vals.tf
-  { d := Dict.update d0 a.reverse, tf := tf, vt := f.vals.vt }
+def compileVals (cfg : Cfg K) (styles : Dict) (f : Frame K) (tag : String) (attrs : List (String × String)) : Vals K :=
+  let a := validAttrs cfg (compileAttrs styles f.vals.d tag attrs)
+  { d := Dict.update (inheritDict f.vals.d) a.reverse, tf := ownTf f.vals.tf a, vt := f.vals.vt }
 
 /-- the per-tag branches (svgelements.py:9230-9406) -/
 def dispatch (cfg : Cfg K) (f : Frame K) (vals : Vals K) (tag : String) : Frame K × List (Rec K) × Status :=
@@ -485,7 +497,11 @@ def dispatch (cfg : Cfg K) (f : Frame K) (vals : Vals K) (tag : String) : Frame 
   else if tag = "svg" then
     match svgEnter cfg (f.ctx != .none) vals f.w f.h with
     | .ok v w h => ({ ctx := childCtx f.ctx, vals := v, w := w, h := h }, [], .running)
-    | .returned => ({ f with vals := vals }, [], .returned)
+    | .returned =>
+      -- zero size: the outermost svg ends the parse with an empty document; a nested one is
+      -- marked `display:none`, so only its own content is skipped
+      if f.ctx == .none then ({ f with vals := vals }, [], .returned)
+      else ({ f with vals := { vals with d := Dict.set vals.d "display" "none" } }, [], .running)
     | .raised e => ({ f with vals := vals }, [], .raised e)
   else if tag = "g" then ({ f with ctx := childCtx f.ctx, vals := vals }, [], .running)
   else if tag = "defs" ∨ tag = "clipPath" ∨ tag = "pattern" then
@@ -504,7 +520,7 @@ def dispatch (cfg : Cfg K) (f : Frame K) (vals : Vals K) (tag : String) : Frame 
 def enter (cfg : Cfg K) (styles : Dict) (f : Frame K) (tag : String) (attrs : List (String × String)) :
     Frame K × List (Rec K) × Status :=
   if displayNone f.vals.d then (f, [], .running)
-  else dispatch cfg f (compileVals styles f tag attrs) tag
+  else dispatch cfg f (compileVals cfg styles f tag attrs) tag
 
 /-- the end event: the `style` element's text joins the rule table; everything else only pops -/
 def leaveStyles (styles : Dict) (cur : Frame K) (tag : String) (text : String) : Dict :=
